@@ -32,7 +32,7 @@ ASSUMPTIONS = [
     "result equality is exact equality of snapshots within one process (same PYTHONHASHSEED)",
 ]
 DECIDING = ["args-unchanged", "pool-unchanged", "same-result-twice"]
-BUDGET = {"quick": (4, 25, 400), "thorough": (16, 200, 100000)}
+BUDGET = {"quick": (4, 25, 14), "thorough": (16, 200, 100000)}
 CASE_TIMEOUT = {"quick": 40, "thorough": 120}
 MIN_EVALS = {"quick": 6, "thorough": 40}
 
@@ -170,9 +170,9 @@ def install(mon, reach):
     from orquestra.quantum.distributions import _measurement_outcome_distribution as D
     from orquestra.quantum.operators import _pauli_operators as PO
 
-    reach.watch(C.Circuit.__init__, "Circuit.__init__")
-    reach.watch(C._append_circuit, "_append_circuit")
-    reach.watch(C._append_operation, "_append_operation")
+    reach.watch(getattr(C.Circuit, "__init__", None), "Circuit.__init__")
+    reach.watch(getattr(C, "_append_circuit", None), "_append_circuit")
+    reach.watch(getattr(C, "_append_operation", None), "_append_operation")
     reach.watch(PO.PauliTerm.copy, "PauliTerm.copy")
     reach.watch(PO.PauliSum.simplify, "PauliSum.simplify")
     reach.watch(D.MeasurementOutcomeDistribution.subdistribution, "MOD.subdistribution")
